@@ -1,6 +1,7 @@
 From Coq Require Import Extraction ExtrOcamlBasic NArith List.
 From MV Require Import Base.PyStr Inv.WildModel InvLoad.Regex Gen.Inventory InvLoad.Basics InvLoad.PyText
-  InvLoad.Reader InvLoad.Load InvLoad.SphinxInv InvLoad.TableCodec.
+  InvLoad.Reader InvLoad.Load InvLoad.SphinxInv InvLoad.TableCodec InvLoad.Cli.
 Extraction Language OCaml.
 Extraction "model.ml" N.succ N.to_nat load_exec sphinx_exec to_sphinx from_sphinx
-  utf8_decode rstrip brstrip split_ws splitlines pjoin match_line_exec contains.
+  utf8_decode rstrip brstrip split_ws splitlines pjoin match_line_exec contains
+  cli_filter cli_fetch fetch_inventory.
